@@ -20,6 +20,7 @@ import (
 	"io"
 	"math"
 	"os"
+	"path/filepath"
 	"runtime/debug"
 	"sort"
 	"strings"
@@ -884,6 +885,51 @@ func fileLimitCases(viol violationSink) (evals int64, outcomes map[string]int64)
 					}
 				}
 			}
+		}
+	}
+	// very large files (sparse: no disk space is used) on the OS backend: still refused when above the limit, through
+	// every limited entry point
+	if dir, derr := os.MkdirTemp("/dev/shm", "verif-c09-sparse-"); derr == nil {
+		defer os.RemoveAll(dir)
+		osfs := filesystem.NewFs(filesystem.StandardFS)
+		for _, size := range []int64{999_999_999, 1_000_000_000, 1_000_000_001, 3_000_000_000, 1 << 32, 1<<32 + 1} {
+			p := filepath.Join(dir, fmt.Sprintf("sparse-%d.bin", size))
+			f, cerr := os.Create(p)
+			if cerr != nil || f.Truncate(size) != nil {
+				continue
+			}
+			_ = f.Close()
+			for _, m := range []int64{0, 4096, 1 << 20} {
+				limits := filesystem.NewLimits(m, 1<<40, 1<<20, 64, false)
+				for _, api := range []string{"ReadFileWithContextAndLimits", "ReadFileWithLimits", "ReadFileContent"} {
+					var content []byte
+					var err error
+					switch api {
+					case "ReadFileContent":
+						h, oerr := osfs.GenericOpen(p)
+						if oerr != nil {
+							continue
+						}
+						content, err = osfs.ReadFileContent(context.Background(), h, limits)
+						_ = h.Close()
+					case "ReadFileWithLimits":
+						content, err = osfs.ReadFileWithLimits(p, limits)
+					default:
+						content, err = osfs.ReadFileWithContextAndLimits(context.Background(), p, limits)
+					}
+					evals++
+					kind := kindName(err)
+					outcomes[api+":huge:"+kind]++
+					replay := map[string]any{"part": "a-file", "api": api, "len": size, "max": m, "sparse": true, "got_kind": kind, "got_len": len(content)}
+					if !commonerrors.Any(err, commonerrors.ErrTooLarge) {
+						viol(fmt.Sprintf("a:%s:larger-file-not-refused-kind=%s:file=huge:cancel=none", api, kind), replay, size)
+					}
+					if len(content) > 0 {
+						viol(fmt.Sprintf("a:%s:larger-file-content-returned:file=huge:cancel=none", api), replay, size)
+					}
+				}
+			}
+			_ = os.Remove(p)
 		}
 	}
 	return
